@@ -453,7 +453,7 @@ namespace xsv
                     g_case_filter(c);
                 cx.st.per_group[gname]++;
                 bool failed = run_case(cx, c, r);
-                RC_ASSERT(!failed);
+                RC_ASSERT(!failed || cx.termination_only);
             },
             md, params);
         if (!res.template is<rc::detail::SuccessResult>())
